@@ -1,10 +1,20 @@
 #!/bin/bash
-# setup_cmd: build everything the checks share (library variants, reference model, explorer) from files on disk.
+# setup_cmd: build everything the checks share (library variants, reference model, harnesses) from files on disk.
+# Everything is content-addressed under .cache, so the checks rebuild on their own whenever /repo changes.
 set -euo pipefail
 cd "$(dirname "$0")/.."
 tools/buildlib.sh plain >/dev/null &
 P1=$!
+tools/buildlib.sh asan >/dev/null &
+P2=$!
+tools/buildlib.sh tsan >/dev/null &
+P3=$!
 tools/buildref.sh >/dev/null
-wait $P1
-tools/buildharness.sh checks/dx.cc plain >/dev/null
+wait $P1 $P2 $P3
+pids=()
+for h in dx c05 c06 c07 c09 c10 c11 c13api c14 c16; do tools/buildharness.sh checks/$h.cc plain >/dev/null & pids+=($!); done
+tools/buildharness.sh checks/c12.cc plain -rdynamic >/dev/null & pids+=($!)
+tools/buildharness.sh checks/c12_tsan.cc tsan -rdynamic >/dev/null & pids+=($!)
+for h in dx c15 c10 c11 c09; do tools/buildharness.sh checks/$h.cc asan >/dev/null & pids+=($!); done
+for p in "${pids[@]}"; do wait "$p"; done
 echo "setup ok"
